@@ -1,8 +1,8 @@
 SPECIFICATION Spec
 CONSTANT Size = 6
 CONSTANT Big = 1000
-CONSTANT Validated = FALSE
-CONSTANT SumValidated = TRUE
+CONSTANT Validated = TRUE
+CONSTANT SumValidated = FALSE
 CONSTANT Rounds = 1
 INVARIANT Proportional
 PROPERTY Terminates
